@@ -16,6 +16,7 @@ from rules.common import *
 from rules.order import must_precede, call_pred, sites, ok_cut
 from rules.C18 import cd_conditions, expr_names
 
+TECHNIQUE = ('static analysis over rustc MIR: exact truth table of the prune decision / executor arms by finite-domain interpretation, typed-identity rule on the used-blob set, every-path (must-pass) guards, durable-before-remove ordering on the resolved call graph, strict-reader call-graph reachability')
 LEVEL = "other"
 EXPLANATION = (
     "Table-agreement and guard rules over commands/prune.rs: for every PackToDo decision the calls reachable in the "
